@@ -336,3 +336,26 @@ Definition node_status_name (b : bytes) : option bytes :=
     | [] => None
     end
   else None.
+
+(* ------------------------------------------------------------------ *)
+(* The naming table: question name -> cache entry.  One well-formed response [m] is merged into
+   the entry of its question name (a fresh entry when the name is new), first record per key wins;
+   the entry is stored, and handed back, only when the response added something. *)
+Definition ctable : Type := list (bytes * cache).
+
+Fixpoint tfind (k : bytes) (t : ctable) : option cache :=
+  match t with
+  | [] => None
+  | x :: r => if lab_eqb (fst x) k then Some (snd x) else tfind k r
+  end.
+
+Fixpoint tput (k : bytes) (c : cache) (t : ctable) : ctable :=
+  match t with
+  | [] => [(k, c)]
+  | x :: r => if lab_eqb (fst x) k then (k, c) :: r else x :: tput k c r
+  end.
+
+Definition ref_process (t : ctable) (m : ref_msg) : option (bytes * cache) * ctable :=
+  let c0 := match tfind (rm_qname m) t with Some c => c | None => cache_empty end in
+  let '(c1, u) := learn_all c0 false (rm_learned m) in
+  if u then (Some (rm_qname m, c1), tput (rm_qname m) c1 t) else (None, t).
